@@ -98,6 +98,59 @@ theorem byname_is_sysv (ty : BitVec 32) : sym_byname_is_sysv ty = (ty == BitVec.
 theorem byname_is_gnu (ty : BitVec 32) :
     sym_byname_is_gnu ty = (ty == BitVec.ofNat 32 SHT_GNU_HASH || ty == BitVec.ofNat 32 DT_GNU_HASH) := rfl
 
+/-- the class tests that choose the instantiation of `generic_get_symbol<T>`, `gnu_hash_lookup<T>` and
+    `generic_search_symbols<T>` -/
+theorem get_is32 (c : Cls) : sym_get_is32 (SymTab.clsByte c) = (c == .c32) := by cases c <;> decide
+theorem byname_gnu_is32 (c : Cls) : sym_byname_gnu_is32 (SymTab.clsByte c) = (c == .c32) := by cases c <;> decide
+theorem byvalue_is32 (c : Cls) : sym_byvalue_is32 (SymTab.clsByte c) = (c == .c32) := by cases c <;> decide
+theorem clsOf_c32 (c : Cls) : SymTab.clsOf (c == .c32) = c := by cases c <;> rfl
+theorem cfg_clsOf (c : Cfg) : (⟨SymTab.clsOf (c.cls == .c32), c.enc⟩ : Cfg) = c := by
+  rw [clsOf_c32]
+
+/-- `get_symbol(index, …)` is `generic_get_symbol<T>` for the `T` of the file's class -/
+theorem getSymbol_unfold (t : SymTab) (index : BitVec 64) (str : Bytes) (a : Attrs) :
+    t.getSymbol index str a =
+      (let data := secData t.sym
+       (t.guardNum data) >>= fun n =>
+       if (if t.c32 then sym32_get_guard data.isNone index n else sym64_get_guard data.isNone index n) then
+         let off := if t.c32 then sym32_get_off index t.sym.entSize else sym64_get_off index t.sym.entSize
+         (rdRange "get_symbol/pSym" data off.toNat (SymTab.symSizeOf t.cfg.cls)) >>= fun rec =>
+         let r := SymTab.decodeRaw t.cfg rec
+         (SymTab.getString t.str r.name) >>= fun pStr =>
+         let nameOk := if t.c32 then sym32_get_name_ok pStr.isNone else sym64_get_name_ok pStr.isNone
+         pure (true, if nameOk then pStr.getD str else str, t.attrsOf r)
+       else pure (false, str, a)) := by
+  unfold SymTab.getSymbol SymTab.getSymbolT SymTab.attrsOf SymTab.c32
+  simp only [get_is32, clsOf_c32, cfg_clsOf]
+
+/-- the by-value search reads `st_value` through `generic_get_symbol_ptr<T>` for the `T` of the file's class -/
+theorem symPtrValue_unfold (t : SymTab) (i : BitVec 64) :
+    t.symPtrValue i =
+      (let data := secData t.sym
+       (t.guardNum data) >>= fun n =>
+       if (if t.c32 then sym32_ptr_guard data.isNone i n else sym64_ptr_guard data.isNone i n) then
+         if (if t.c32 then sym32_ptr_small t.sym.entSize else sym64_ptr_small t.sym.entSize) then pure none else
+         let off := if t.c32 then sym32_ptr_off i t.sym.entSize else sym64_ptr_off i t.sym.entSize
+         let (fo, fw) := match t.cfg.cls with
+           | .c32 => (Elf32_Sym.st_value_off, Elf32_Sym.st_value_w)
+           | .c64 => (Elf64_Sym.st_value_off, Elf64_Sym.st_value_w)
+         (rdRange "search_symbols/st_value" data (off.toNat + fo) fw) >>= fun bs =>
+         pure (some (BitVec.ofNat 64 (rdField t.cfg.enc bs)))
+       else pure none) := by
+  unfold SymTab.symPtrValue SymTab.symPtrValueT SymTab.c32
+  simp only [byvalue_is32, clsOf_c32]
+  rfl
+
+theorem gnuLookupT_dispatch (t : SymTab) :
+    SymTab.gnuLookupT (sym_byname_gnu_is32 (SymTab.clsByte t.cfg.cls)) t = t.gnuLookup := by
+  unfold SymTab.gnuLookup SymTab.c32
+  rw [byname_gnu_is32]
+
+/-- the linear fallback of `get_symbol(name, …)` -/
+theorem byname_hit (got eq : Bool) : sym_byname_hit got eq = (got && eq) := rfl
+theorem byname_i_incr (i : BitVec 64) : sym_byname_i_incr i = i + 1 := rfl
+theorem byname_i_init : sym_byname_i_init = 0 := by decide
+
 theorem genericAddSymbolT_c32 (t : SymTab) :
     SymTab.genericAddSymbolT (t.cfg.cls == Cls.c32) t = t.genericAddSymbol := rfl
 
